@@ -325,6 +325,20 @@ func servePingPong(b *plugin.GRPCBroker, id uint32) {
 	})
 }
 
+// servePingPongLater: broker.Accept(id) now, start serving the returned listener only `wait` later (set-up work between
+// the two, a slow scheduler): a stream announced for id in between finds the listener registered but not yet in Accept().
+func servePingPongLater(b *plugin.GRPCBroker, id uint32, wait time.Duration) {
+	ln, err := b.Accept(id)
+	if err != nil {
+		return
+	}
+	defer ln.Close()
+	time.Sleep(wait)
+	s := grpc.NewServer()
+	grpctest.RegisterPingPongServer(s, &pingPong{id: id})
+	s.Serve(ln)
+}
+
 func pingVia(ctx context.Context, b *plugin.GRPCBroker, id uint32) error {
 	conn, err := b.Dial(id)
 	if err != nil {
